@@ -279,6 +279,15 @@ func (idx *HNSWIndex) Add(vector VectorNode) error {
 		return nil
 	}
 
+	// If every existing vertex is soft-deleted there is nothing to link to; the new
+	// node becomes the entry point so that searches start from a live vertex
+	if uint64(len(idx.nodes)) == idx.deletedNodes.GetCardinality() {
+		idx.entryPoint = id
+		idx.nodes[id] = node
+		idx.mu.Unlock()
+		return nil
+	}
+
 	// Register the node before linking it: pruneConnections resolves neighbor IDs
 	// through idx.nodes and would otherwise drop the new node from every full
 	// neighbor list, leaving it without incoming edges
@@ -580,10 +589,11 @@ func (idx *HNSWIndex) searchLayer(query []float32, entryPoint uint32, ef int, la
 	result := newMaxHeap()
 	defer putMaxHeap(result) // Return to pool when done
 
-	// Check entry point BEFORE adding to candidates
+	// A soft-deleted entry point is still explored (it may be the only way to
+	// reach the live vertices) but, like every deleted vertex, never reported
+	d := idx.distance.Calculate(query, idx.nodes[entryPoint].Vector())
+	heap.Push(candidates, candidate{id: entryPoint, distance: d})
 	if !idx.deletedNodes.Contains(entryPoint) {
-		d := idx.distance.Calculate(query, idx.nodes[entryPoint].Vector())
-		heap.Push(candidates, candidate{id: entryPoint, distance: d})
 		heap.Push(result, candidate{id: entryPoint, distance: d})
 	}
 	visited.Add(entryPoint)
@@ -600,11 +610,6 @@ func (idx *HNSWIndex) searchLayer(query []float32, entryPoint uint32, ef int, la
 		node := idx.nodes[current.id]
 		if layer < len(node.Edges) {
 			for _, neighborID := range node.Edges[layer] {
-				// SOFT DELETE CHECK: Skip deleted neighbors
-				if idx.deletedNodes.Contains(neighborID) {
-					continue
-				}
-
 				if !visited.Contains(neighborID) {
 					visited.Add(neighborID)
 
@@ -612,6 +617,12 @@ func (idx *HNSWIndex) searchLayer(query []float32, entryPoint uint32, ef int, la
 
 					if result.Len() < ef || d < (*result)[0].distance {
 						heap.Push(candidates, candidate{id: neighborID, distance: d})
+
+						// SOFT DELETE CHECK: deleted neighbors are traversed, not returned
+						if idx.deletedNodes.Contains(neighborID) {
+							continue
+						}
+
 						heap.Push(result, candidate{id: neighborID, distance: d})
 
 						if result.Len() > ef {
